@@ -237,17 +237,18 @@ theorem single_axisKeep (m : Nat) :
   rw [zipIdx_flatMap2, List.filterMap_flatMap, List.range_succ (n := m + 1), List.flatMap_append]
   have hlast : ([m + 1].flatMap fun i =>
       List.filterMap (fun fi : Face × Nat => if axisKeep (m + 2) fi.2 = true then some fi.1 else none)
-        [((i, m + 2 + i, i + 1), 2 * i), ((i + 1, m + 2 + i, m + 2 + i + 1), 2 * i + 1)]) = [] := by
+        [((i, m + 2 + i, (i + 1) % (m + 2)), 2 * i), (((i + 1) % (m + 2), m + 2 + i, m + 2 + (i + 1) % (m + 2)), 2 * i + 1)]) = [] := by
     simp [axisKeep]
   rw [hlast, List.append_nil]
   apply flatMap_congr'
   intro i hi
   have hi' : i < m + 1 := List.mem_range.mp hi
+  have hm : (i + 1) % (m + 2) = i + 1 := Nat.mod_eq_of_lt (by omega)
   have k0 : axisKeep (m + 2) (2 * i) = true ↔ i ≠ 0 := by
     simp [axisKeep]; omega
   have k1 : axisKeep (m + 2) (2 * i + 1) = true ↔ i ≠ m := by
     simp [axisKeep]; omega
-  simp only [List.filterMap_cons, List.filterMap_nil, k0, k1]
+  simp only [List.filterMap_cons, List.filterMap_nil, k0, k1, hm, ← Nat.add_assoc]
   split_ifs <;> first | rfl | (exfalso; omega)
 
 theorem shift_mod (per slices i j : Nat) (hj : j < slices) (hi : i < per) :
